@@ -720,17 +720,32 @@ namespace verif
                 for (int round = 0; round < 4 && !stop_clients; ++round)
                 {
                     std::string atag = "k" + std::to_string(case_no) + "gone" + std::to_string(round);
-                    int a            = net::connect_loopback(port);
+                    // the new connections' client sockets exist before A does: their connect() then takes no descriptor
+                    // number, and the number A's server side frees is the lowest one free when they are accepted
+                    int b[3];
+                    for (int& fd : b)
+                        fd = net::make_socket();
+                    int a = net::connect_loopback(port);
                     if (a < 0)
+                    {
+                        for (int fd : b)
+                            ::close(fd);
                         return;
+                    }
                     // (odd rounds: the late answer is the continuation of a stream that was opened while the client was there)
                     net::send_all(a, std::string("GET ") + (round % 2 ? "/slowstream/40" : "/slow/40") + " HTTP/1.1\r\nHost: x\r\nX-Tag: " + atag + "\r\n\r\n");
                     net::sleep_ms(8); // the request reaches its handler
                     ::close(a);
-                    net::sleep_ms(12); // the worker sees the disconnect and closes its end
-                    int b[3];
+                    int plug = ::dup(0); // takes the number A's client side has just freed
+                    net::sleep_ms(12);   // the worker sees the disconnect and closes its end
                     for (int& fd : b)
-                        fd = net::connect_loopback(port);
+                        if (fd >= 0 && !net::connect_socket(fd, port))
+                        {
+                            ::close(fd);
+                            fd = -1;
+                        }
+                    if (plug >= 0)
+                        ::close(plug);
                     double until = net::now_s() + 0.12;
                     for (int k = 0; k < 3; ++k)
                     {
